@@ -285,6 +285,14 @@ theorem ffft_is_dft {R : Type} [CommRing R] (w : R) (n : Nat) (hn : 1 ≤ n) (hw
   · intro b _ hb; simp [hb]
   · intro hk'; exact absurd (Finset.mem_range.mpr hk) hk'
 
+/-- The two descriptions of `ffft` the driver exports agree for every size: letting the emitted operations act on
+coefficient vectors (`runFfft`, what `c14.ffftsim*` executes) gives the root of unity raised to the entry of the
+Cooley–Tukey exponent table (`ffftExpTable`, what `c14.ffftexp` returns). -/
+theorem ffft_ops_match_exponent_table {R : Type} [CommRing R] (w : R) (n : Nat) (hn : 1 ≤ n) (hw : w ^ n = 1)
+    (h2 : 2 ∣ n → w ^ (n / 2) = -1) (k j : Nat) (hk : k < n) (hj : j < n) :
+    runFfft (ringOps w) n (ffftOps n) (fun i => if i = k then 1 else 0) j
+      = w ^ (ctExp (primeFactors n n) k j % n) := by
+  rw [ffft_is_dft w n hn hw h2 k j hk hj, ffft_table_is_dft n k j hn hj, pow_mod_of_pow_eq_one w n _ hw, Nat.mul_comm]
 /-- non-vacuity: `w = −1` for two modes (ℤ), `w = −i` for four modes (Gaussian rationals) -/
 example : (1 : Nat) ≤ 1 → (-1 : Int) ^ (2 ^ (1 - 1)) = -1 := by intro _; norm_num
 example : (1 : Nat) ≤ 2 → (⟨0, -1⟩ : GQ) ^ (2 ^ (2 - 1)) = -1 := by
@@ -464,6 +472,35 @@ theorem double_excitation_spectral (c s : Rat) :
   mat_unfold
   mat_entries
 
+/-- `QuadraticFermionicSimulationGate.fswap`: conjugating the gate by FSWAP is the gate with `w0 ↦ w̄0` (the weight
+update the code performs), for all parameters. -/
+theorem quadratic_fswap_rule (c0 s0 c1 s1 : Rat) (u : GQ) :
+    Mat.mul fswap (Mat.mul (quadratic c0 s0 u c1 s1) (Mat.dagger fswap)) = quadratic c0 s0 (GQ.conj u) c1 s1 := by
+  unfold fswap quadratic
+  mat_unfold
+  mat_entries
+
+/-- the Model matrix of the quadratic gate is unitary -/
+theorem quadratic_unitary (c0 s0 c1 s1 : Rat) (u : GQ) (h0 : c0 * c0 + s0 * s0 = 1) (h1 : c1 * c1 + s1 * s1 = 1)
+    (hu : u * GQ.conj u = 1) :
+    Mat.mul (quadratic c0 s0 u c1 s1) (Mat.dagger (quadratic c0 s0 u c1 s1)) = Mat.identity 4 := by
+  have hre : u.re * u.re + u.im * u.im = 1 := by
+    have := congrArg GQ.re hu; simp [GQ.conj] at this; linarith
+  rw [identity4]
+  unfold quadratic id4
+  mat_unfold
+  mat_entries
+  all_goals try linear_combination h0 + (s0 * s0) * hre
+/-- `CubicFermionicSimulationGate.fswap(0)` / `fswap(1)`: conjugating the generator by FSWAP on qubits (0,1) resp.
+(1,2) gives the generator with the weights `(−w1, −w0, w̄2)` resp. `(w̄0, −w2, −w1)` — the update rules of the code. -/
+theorem cubic_fswap_rules (w0 w1 w2 : GQ) :
+    Mat.mul fswap01 (Mat.mul (cubicGenerator w0 w1 w2) (Mat.dagger fswap01))
+      = cubicGenerator (-w1) (-w0) (GQ.conj w2) ∧
+    Mat.mul fswap12 (Mat.mul (cubicGenerator w0 w1 w2) (Mat.dagger fswap12))
+      = cubicGenerator (GQ.conj w0) (-w2) (-w1) := by
+  rw [cubicGenerator_lit, cubicGenerator_lit, cubicGenerator_lit]
+  unfold fswap01 fswap12
+  refine ⟨?_, ?_⟩ <;> mat_unfold <;> mat_entries
 /-- Eigen-structure of the cubic gate for general weights, without eigenvalues: the 3×3 block `M` that
 `_eigen_components` hands to `numpy.linalg.eigh` is Hermitian and satisfies its characteristic equation
 `M³ = (|w0|²+|w1|²+|w2|²)·M + 2Re(w0 w̄1 w2)·1`, so `exp(−itM)` is a polynomial of degree ≤ 2 in `M` with
